@@ -444,11 +444,7 @@ def _census(ctx, model):
                "no __setattr__/__delattr__ override" if not bad else
                f"{n.name} overrides {bad}: frozenness can be bypassed",
                nontrivial=False)
-        # comparison-ordering methods must not come back
-        bad = sorted(own & {"__lt__", "__le__", "__gt__", "__ge__"})
-        if bad and n.name not in ("MultiVector",):
-            ctx.ob(f"S/census/{n.name}/no-ordering", False, c.loc(),
-                   f"{n.name} defines {bad}")
+        # (ordering dunders are C03's clause, not C01's: nothing is said here)
     ctx.floor("decorated node classes", n_dec, 40)
     # __post_init__ runs before a hash can exist
     for n in nodes:
